@@ -965,6 +965,17 @@ def exit_set_scope(ctx, rid: str) -> None:
              f"the base exit set is not 'active states that are descendants of the domain, the domain itself excluded' (descendant test: {has_desc}, "
              f"domain excluded: {not_dom}): states outside the transition's subtree are exited, or the domain itself is", b)
     par = [x for x in own_nodes(f.node) if isinstance(x, ast.If) and any(atom_is_type_test((a, pol), "parallel") is True for a, pol in split_atoms(x.test, True))]
+    if not par:
+        # guard-clause form:  if domain is None or domain.type != "parallel": return candidates   ... narrowing follows
+        under_par = [x for x in own_nodes(f.node) if isinstance(x, (ast.While, ast.SetComp)) and x not in base and
+                     any(atom_is_type_test((a, pol), "parallel") is True for a, pol in guards_at(f, x.test if isinstance(x, ast.While) else x))]
+        if under_par:
+            class _Blk:      # the statements that run under "the domain is parallel"
+                pass
+            pi_ = _Blk()
+            pi_.body = [st for st in f.node.body if any(y in under_par for y in ast.walk(st))]
+            pi_.lineno = pi_.body[0].lineno
+            par = [pi_]
     if not c.expect(rid, "parallel-domain branch", len(par), 1, f,
                     "the exit set is no longer narrowed when the domain is a parallel state: a transition inside one region exits every sibling region, "
                     "which is never re-entered"):
